@@ -32,45 +32,45 @@ def run(ck):
                 r = it.call_function(VFunc(swapf), [s1, s2, A], {}, None)
                 return s1, s2, A, r
 
-            p = single(paths_of(prog, th), inst)
-            s1, s2, A, r = p.value
-            items = p.interp.concrete_items(r)
-            if items is None or len(items) != 2:
-                ck.undecided("C09.R2", inst, swapf.site(), "swap does not return a pair")
-                continue
-            from ..ops import _spec_item
+            for p in returning(paths_of(prog, th), inst):
+                s1, s2, A, r = p.value
+                items = p.interp.concrete_items(r)
+                if items is None or len(items) != 2:
+                    ck.undecided("C09.R2", inst, swapf.site(), "swap does not return a pair")
+                    continue
+                from ..ops import _spec_item
 
-            spec = (("slice", None, None, None), _spec_item(A))
-            S1, S2 = T.sym("S1"), T.sym("S2")
-            w1 = T.upd(S1, spec, T.app("index", S2, spec))
-            w2 = T.upd(S2, spec, T.app("index", S1, spec))
-            g1, g2 = items[0].term, items[1].term
-            ck.check(items[0].obj is s1.obj and items[1].obj is s2.obj, "C09.R2", inst + ":returns (s1, s2)", swapf.site(), "swap does not return its two arguments in order")
-            ck.check(g1 == w1, "C09.R2", inst + ":first replica", swapf.site(), "after swap the first replica is %r; expected region A taken from the second replica" % (g1,))
-            if g2 == w2:
-                ck.ok("C09.R2", inst + ":second replica", swapf.site())
-            elif g2 == S2 or g2 == T.upd(S2, spec, T.app("index", S2, spec)):
-                ck.violation("C09.R2", inst + ":second replica", swapf.site(),
-                             "the second replica is unchanged: the temporary holding region A of the first replica shares storage with it (missing copy) or the write-back is missing")
-            else:
-                ck.check(None if g2 is None else (False if g2.syms() != w2.syms() else None), "C09.R2", inst + ":second replica", swapf.site(),
-                         "after swap the second replica is %r; expected region A taken from the first replica" % (g2,))
-            # the temporary must not be a (possible) view of s1
-            tmp_alias = [e for e in p.effects if e.kind == "write"]
-            # inspect local `_s`-like temporaries: any tensor created in swap that may alias S1
-            maybe = [o for o in p.interp.all_tobjs if getattr(o, "maybe_view", False)]
-            used_as_value = [c for c in p.effects if c.kind == "write"]
-            bad = False
-            for o in maybe:
-                # a maybe-view that is later stored into s2 makes the result depend on the kind of A
-                if any(o in x.may_alias or x is o for x in [o]):
-                    bad = True
-            if rname == "unknown-kind":
-                # under an index of unknown kind (int -> view, list -> copy) the exchange is only correct if the
-                # temporary is an explicit copy
-                src = _swap_temp_is_copy(prog, swapf)
-                ck.check(src, "C09.R2", inst + ":temporary is a copy", swapf.site(),
-                         "the temporary that holds region A is not an explicit copy: for an integer or slice region it is a view and the exchange is lost")
+                spec = (("slice", None, None, None), _spec_item(A))
+                S1, S2 = T.sym("S1"), T.sym("S2")
+                w1 = T.upd(S1, spec, T.app("index", S2, spec))
+                w2 = T.upd(S2, spec, T.app("index", S1, spec))
+                g1, g2 = items[0].term, items[1].term
+                ck.check(items[0].obj is s1.obj and items[1].obj is s2.obj, "C09.R2", inst + ":returns (s1, s2)", swapf.site(), "swap does not return its two arguments in order")
+                ck.check(g1 == w1, "C09.R2", inst + ":first replica", swapf.site(), "after swap the first replica is %r; expected region A taken from the second replica" % (g1,))
+                if g2 == w2:
+                    ck.ok("C09.R2", inst + ":second replica", swapf.site())
+                elif g2 == S2 or g2 == T.upd(S2, spec, T.app("index", S2, spec)):
+                    ck.violation("C09.R2", inst + ":second replica", swapf.site(),
+                                 "the second replica is unchanged: the temporary holding region A of the first replica shares storage with it (missing copy) or the write-back is missing")
+                else:
+                    ck.check(None if g2 is None else (False if g2.syms() != w2.syms() else None), "C09.R2", inst + ":second replica", swapf.site(),
+                             "after swap the second replica is %r; expected region A taken from the first replica" % (g2,))
+                # the temporary must not be a (possible) view of s1
+                tmp_alias = [e for e in p.effects if e.kind == "write"]
+                # inspect local `_s`-like temporaries: any tensor created in swap that may alias S1
+                maybe = [o for o in p.interp.all_tobjs if getattr(o, "maybe_view", False)]
+                used_as_value = [c for c in p.effects if c.kind == "write"]
+                bad = False
+                for o in maybe:
+                    # a maybe-view that is later stored into s2 makes the result depend on the kind of A
+                    if any(o in x.may_alias or x is o for x in [o]):
+                        bad = True
+                if rname == "unknown-kind":
+                    # under an index of unknown kind (int -> view, list -> copy) the exchange is only correct if the
+                    # temporary is an explicit copy
+                    src = _swap_temp_is_copy(prog, swapf)
+                    ck.check(src, "C09.R2", inst + ":temporary is a copy", swapf.site(),
+                             "the temporary that holds region A is not an explicit copy: for an integer or slice region it is a view and the exchange is lost")
     # ------------------------------------------------------------------ R1 / R3 SWAP.apply
     asite = prog.method("SWAP", "apply").site()
     for cls in api.STATES:
@@ -84,79 +84,79 @@ def run(ck):
                     r = call(it, o, "apply", s, smp)
                     return s, o, smp, r
 
-                p = single(paths_of(prog, th, sticky=True), inst)
-                shape_err_verdict(ck, "C09.R3", inst, [p])
-                s, o, smp, r = p.value
-                wr = [e for e in p.effects if "param:samples" in e.origins and e.kind in ("write", "meta")]
-                ck.check(not wr, "C09.R1", inst + ":batch untouched", wr[0].site if wr else asite, "SWAP.apply writes the caller's batch (%s)" % (wr[0].detail if wr else ""))
-                sc = [c for c in p.calls if c[0].endswith("entanglement.swap")]
-                ck.check(len(sc) == 1, "C09.R1", inst + ":one swap", asite, "swap is called %d times" % len(sc))
-                if len(sc) == 1:
-                    env = sc[0][5]
-                    a1, a2 = env.get("s1"), env.get("s2")
-                    for nm, a in (("s1", a1), ("s2", a2)):
-                        ck.check(isinstance(a, VTens) and a.obj.origin == "fresh" and not a.obj.may_alias, "C09.R1", inst + ":swap(%s) on a copy" % nm, asite,
-                                 "swap receives a tensor that shares storage with %s" % (getattr(getattr(a, "obj", None), "origin", "?")))
-                # ---------------- R3 pairing
-                rolls = [c for c in p.interp.ext_calls if c[0] == "torch.roll"]
-                S = T.sym("samples")
-                okroll = False
-                if len(rolls) == 1:
-                    args, kwargs = rolls[0][1], rolls[0][2]
-                    x = args[0] if args else None
-                    sh = args[1] if len(args) > 1 else kwargs.get("shifts")
-                    dm = args[2] if len(args) > 2 else kwargs.get("dims")
-                    oks, shv = const_of(sh) if sh is not None else (False, None)
-                    okd, dmv = const_of(dm) if dm is not None else (False, None)
-                    okroll = isinstance(x, VTens) and x.term == S and oks and isinstance(shv, int) and okd and dmv in (0, -2)
-                    nonzero = oks and isinstance(shv, int) and shv != 0
-                    ck.check(bool(okroll), "C09.R3", inst + ":replica = cyclic shift of the batch rows", asite,
-                             "the second replica is not torch.roll(samples, s, dims=0): %s" % ([repr(a) for a in args],))
-                    ck.check(bool(nonzero), "C09.R3", inst + ":shift != 0", asite, "a zero shift pairs every sample with itself")
-                else:
-                    ck.check(None if rolls else False, "C09.R3", inst + ":replica = cyclic shift of the batch rows", asite,
-                             "the second replica is not built by a cyclic roll of the batch (found %d torch.roll calls)" % len(rolls))
-                wc = [c for c in p.calls if c[0].endswith("importance_sampling_weight")]
-                ck.check(len(wc) == 2, "C09.R3", inst + ":two weights", asite, "importance_sampling_weight is called %d times, expected 2" % len(wc))
-                if len(wc) == 2 and len(rolls) == 1 and okroll:
-                    R = rolls[0][4].term
-                    from ..ops import _spec_item
+                for p in returning(paths_of(prog, th, sticky=True), inst):
+                    shape_err_verdict(ck, "C09.R3", inst, [p])
+                    s, o, smp, r = p.value
+                    wr = [e for e in p.effects if "param:samples" in e.origins and e.kind in ("write", "meta")]
+                    ck.check(not wr, "C09.R1", inst + ":batch untouched", wr[0].site if wr else asite, "SWAP.apply writes the caller's batch (%s)" % (wr[0].detail if wr else ""))
+                    sc = [c for c in p.calls if c[0].endswith("entanglement.swap")]
+                    ck.check(len(sc) == 1, "C09.R1", inst + ":one swap", asite, "swap is called %d times" % len(sc))
+                    if len(sc) == 1:
+                        env = sc[0][5]
+                        a1, a2 = env.get("s1"), env.get("s2")
+                        for nm, a in (("s1", a1), ("s2", a2)):
+                            ck.check(isinstance(a, VTens) and a.obj.origin == "fresh" and not a.obj.may_alias, "C09.R1", inst + ":swap(%s) on a copy" % nm, asite,
+                                     "swap receives a tensor that shares storage with %s" % (getattr(getattr(a, "obj", None), "origin", "?")))
+                    # ---------------- R3 pairing
+                    rolls = [c for c in p.interp.ext_calls if c[0] == "torch.roll"]
+                    S = T.sym("samples")
+                    okroll = False
+                    if len(rolls) == 1:
+                        args, kwargs = rolls[0][1], rolls[0][2]
+                        x = args[0] if args else None
+                        sh = args[1] if len(args) > 1 else kwargs.get("shifts")
+                        dm = args[2] if len(args) > 2 else kwargs.get("dims")
+                        oks, shv = const_of(sh) if sh is not None else (False, None)
+                        okd, dmv = const_of(dm) if dm is not None else (False, None)
+                        okroll = isinstance(x, VTens) and x.term == S and oks and isinstance(shv, int) and okd and dmv in (0, -2)
+                        nonzero = oks and isinstance(shv, int) and shv != 0
+                        ck.check(bool(okroll), "C09.R3", inst + ":replica = cyclic shift of the batch rows", asite,
+                                 "the second replica is not torch.roll(samples, s, dims=0): %s" % ([repr(a) for a in args],))
+                        ck.check(bool(nonzero), "C09.R3", inst + ":shift != 0", asite, "a zero shift pairs every sample with itself")
+                    else:
+                        ck.check(None if rolls else False, "C09.R3", inst + ":replica = cyclic shift of the batch rows", asite,
+                                 "the second replica is not built by a cyclic roll of the batch (found %d torch.roll calls)" % len(rolls))
+                    wc = [c for c in p.calls if c[0].endswith("importance_sampling_weight")]
+                    ck.check(len(wc) == 2, "C09.R3", inst + ":two weights", asite, "importance_sampling_weight is called %d times, expected 2" % len(wc))
+                    if len(wc) == 2 and len(rolls) == 1 and okroll:
+                        R = rolls[0][4].term
+                        from ..ops import _spec_item
 
-                    spec = (("slice", None, None, None), _spec_item(o.inst.attrs.get("A")))
-                    sw1 = T.upd(S, spec, T.app("index", R, spec))
-                    sw2 = T.upd(R, spec, T.app("index", S, spec))
-                    pairs = []
-                    for c in wc:
-                        vp, v = c[5].get("vp"), c[5].get("v")
-                        pairs.append((getattr(vp, "term", None), getattr(v, "term", None)))
-                    ok = sorted(map(repr, pairs)) == sorted(map(repr, [(sw1, S), (sw2, R)]))
-                    if ok:
-                        ck.ok("C09.R3", inst + ":weights pair swapped_k with original_k", asite)
-                    elif sorted(map(repr, pairs)) == sorted(map(repr, [(sw2, S), (sw1, R)])):
-                        ck.violation("C09.R3", inst + ":weights pair swapped_k with original_k", asite, "each swapped configuration is weighted against the other replica's original")
-                    elif sorted(map(repr, pairs)) == sorted(map(repr, [(S, sw1), (R, sw2)])):
-                        ck.violation("C09.R3", inst + ":weights pair swapped_k with original_k", asite, "the weight arguments are reversed (original over swapped)")
-                    elif all(a in (sw1, sw2) for a, _ in pairs) and all(b in (S, R) for _, b in pairs):
-                        ck.violation("C09.R3", inst + ":weights pair swapped_k with original_k", asite,
-                                     "a swapped configuration is weighted against the wrong original (each weight must be psi(swapped_k)/psi(original_k), once per replica)")
-                    else:
-                        ck.undecided("C09.R3", inst + ":weights pair swapped_k with original_k", asite, "weight arguments not recognised: %r" % (pairs,))
-                    # final value = Re(w1 * w2)
-                    w1, w2 = wc[0][6], wc[1][6]
-                    c1, c2 = T.as_stack0(w1) if w1 is not None else None, T.as_stack0(w2) if w2 is not None else None
-                    if c1 is not None and c2 is not None and isinstance(r, VTens) and r.term is not None:
-                        want = c1[0] * c2[0] - c1[1] * c2[1]
-                        if r.term == want:
-                            ck.ok("C09.R3", inst + ":Re(w1*w2)", asite)
-                        elif r.term == c1[0] * c2[1] + c1[1] * c2[0]:
-                            ck.violation("C09.R3", inst + ":Re(w1*w2)", asite, "the imaginary part of the product of weights is returned")
-                        elif r.term == c1[0] * c2[0] + c1[1] * c2[1]:
-                            ck.violation("C09.R3", inst + ":Re(w1*w2)", asite, "the product of weights has a sign error (w1 * conj(w2))")
+                        spec = (("slice", None, None, None), _spec_item(o.inst.attrs.get("A")))
+                        sw1 = T.upd(S, spec, T.app("index", R, spec))
+                        sw2 = T.upd(R, spec, T.app("index", S, spec))
+                        pairs = []
+                        for c in wc:
+                            vp, v = c[5].get("vp"), c[5].get("v")
+                            pairs.append((getattr(vp, "term", None), getattr(v, "term", None)))
+                        ok = sorted(map(repr, pairs)) == sorted(map(repr, [(sw1, S), (sw2, R)]))
+                        if ok:
+                            ck.ok("C09.R3", inst + ":weights pair swapped_k with original_k", asite)
+                        elif sorted(map(repr, pairs)) == sorted(map(repr, [(sw2, S), (sw1, R)])):
+                            ck.violation("C09.R3", inst + ":weights pair swapped_k with original_k", asite, "each swapped configuration is weighted against the other replica's original")
+                        elif sorted(map(repr, pairs)) == sorted(map(repr, [(S, sw1), (R, sw2)])):
+                            ck.violation("C09.R3", inst + ":weights pair swapped_k with original_k", asite, "the weight arguments are reversed (original over swapped)")
+                        elif all(a in (sw1, sw2) for a, _ in pairs) and all(b in (S, R) for _, b in pairs):
+                            ck.violation("C09.R3", inst + ":weights pair swapped_k with original_k", asite,
+                                         "a swapped configuration is weighted against the wrong original (each weight must be psi(swapped_k)/psi(original_k), once per replica)")
                         else:
-                            ck.undecided("C09.R3", inst + ":Re(w1*w2)", asite, "result is not Re(weight1*weight2): %r" % (r.term,))
-                    else:
-                        ck.undecided("C09.R3", inst + ":Re(w1*w2)", asite, "weights are not complex pairs")
-                ck.check(isinstance(r, VTens) and r.shape == ("B",), "C09.R3", inst + ":shape", asite, "result shape %s, expected (B,)" % (getattr(r, "shape", None),))
+                            ck.undecided("C09.R3", inst + ":weights pair swapped_k with original_k", asite, "weight arguments not recognised: %r" % (pairs,))
+                        # final value = Re(w1 * w2)
+                        w1, w2 = wc[0][6], wc[1][6]
+                        c1, c2 = T.as_stack0(w1) if w1 is not None else None, T.as_stack0(w2) if w2 is not None else None
+                        if c1 is not None and c2 is not None and isinstance(r, VTens) and r.term is not None:
+                            want = c1[0] * c2[0] - c1[1] * c2[1]
+                            if r.term == want:
+                                ck.ok("C09.R3", inst + ":Re(w1*w2)", asite)
+                            elif r.term == c1[0] * c2[1] + c1[1] * c2[0]:
+                                ck.violation("C09.R3", inst + ":Re(w1*w2)", asite, "the imaginary part of the product of weights is returned")
+                            elif r.term == c1[0] * c2[0] + c1[1] * c2[1]:
+                                ck.violation("C09.R3", inst + ":Re(w1*w2)", asite, "the product of weights has a sign error (w1 * conj(w2))")
+                            else:
+                                ck.undecided("C09.R3", inst + ":Re(w1*w2)", asite, "result is not Re(weight1*weight2): %r" % (r.term,))
+                        else:
+                            ck.undecided("C09.R3", inst + ":Re(w1*w2)", asite, "weights are not complex pairs")
+                    ck.check(isinstance(r, VTens) and r.shape == ("B",), "C09.R3", inst + ":shape", asite, "result shape %s, expected (B,)" % (getattr(r, "shape", None),))
     ck.require_min("C09.R1", 27)
     ck.require_min("C09.R2", 10)
     ck.require_min("C09.R3", 40)
